@@ -38,6 +38,8 @@ def WFES (c : Ctx) : CExpr → Bool
   | .call _ _ _ _ => false
   | .stmtexpr _ _ _ => false
   | .seqexpr _ _ _ _ _ => false
+  | .callx _ _ _ _ _ => false
+  | .xmacro _ _ _ => false
 def WFESs (c : Ctx) : List CExpr → List CT → Bool
   | [], _ => true
   | _ :: _, [] => true
